@@ -14,10 +14,13 @@ package jsonapi
 
 //@ spec inList(s []string, x string) = exists j int :: 0 <= j && j < len(s) && s[j] == x
 
+//@ spec selfLinkOf(prepath string, tn string, id string) = ite(suffixof("/", prepath), prepath, prepath + "/") + ite(id != "" && tn != "", tn + "/" + id, "")
+
 //@ func buildSelfLink
 //@ props C03 C04
 //@ requires res: res != nil
 //@ modifies new[string]
+//@ ensures link: result == selfLinkOf(prepath, R_type($rh, res).Name, str(R_get($rh, res, "id")))
 
 //@ func buildRelationshipLinks
 //@ props C03 C04
@@ -25,6 +28,8 @@ package jsonapi
 //@ modifies new[string], new[map[string]string]
 //@ ensures fresh: result != nil && fresh(result)
 //@ ensures keys: forall k string :: (k in result) == (k == "self" || k == "related")
+//@ ensures self: result["self"] == selfLinkOf(prepath, R_type($rh, res).Name, str(R_get($rh, res, "id"))) + "/relationships/" + rel
+//@ ensures related: result["related"] == selfLinkOf(prepath, R_type($rh, res).Name, str(R_get($rh, res, "id"))) + "/" + rel
 
 //@ spec listOf(m map[string][]string, k string) = ite(k in m, m[k], zero(type[[]string]))
 //@ spec sepSl(a []string, b []string) = len(a) == 0 || len(b) == 0 || ptr(a) + len(a) <= ptr(b) || ptr(b) + len(b) <= ptr(a)
@@ -84,3 +89,74 @@ package jsonapi
 //@ assert before Marshal#1 many-data-kind: "data" in s#1 ==> dyn(s#1["data"]) == type[[]map[string]string] && len(sl(s#1["data"], type[[]map[string]string])) == len(sl(R_get($rh, r, rel.FromName), type[[]string]))
 //@ assert before Marshal#1 many-data-items: "data" in s#1 ==> (forall i int :: 0 <= i && i < len(sl(R_get($rh, r, rel.FromName), type[[]string])) ==> sl(s#1["data"], type[[]map[string]string])[i] != nil && "id" in sl(s#1["data"], type[[]map[string]string])[i] && sl(s#1["data"], type[[]map[string]string])[i]["id"] == sl(R_get($rh, r, rel.FromName), type[[]string])[i] && "type" in sl(s#1["data"], type[[]map[string]string])[i] && sl(s#1["data"], type[[]map[string]string])[i]["type"] == rel.ToType)
 //@ assert before Marshal#1 many-sorted: "data" in s#1 ==> (forall i int, j int :: 0 <= i && i <= j && j < len(sl(R_get($rh, r, rel.FromName), type[[]string])) ==> sl(R_get($rh, r, rel.FromName), type[[]string])[i] <= sl(R_get($rh, r, rel.FromName), type[[]string])[j])
+
+// Every resource of the collection is marshaled with the field list the
+// selection holds for its own type.
+//@ spec colSep(c Collection, fields map[string][]string, relData map[string][]string) = forall i int, k string, t string :: 0 <= i && i < C_len($rh, c) && dyn(R_get($rh, C_at($rh, c, i), k)) == type[[]string] ==> (t in fields ==> sepSl(sl(R_get($rh, C_at($rh, c, i), k), type[[]string]), fields[t])) && (t in relData ==> sepSl(sl(R_get($rh, C_at($rh, c, i), k), type[[]string]), relData[t]))
+
+//@ func MarshalCollection
+//@ props C04 C03 C11
+//@ requires col: c != nil
+//@ requires sep: colSep(c, fields, relData)
+//@ modifies heap[string], new[uint8], new[map[string]any], new[map[string]string], new[map[string]map[string]string], new[map[string]*json.RawMessage], new[json.RawMessage], new[*json.RawMessage], new[[]map[string]string], new[map[string]string], new[any]
+//@ loop 0 invariant raws: i >= 0 && (cap(raws) == 0 || fresh(raws)) && unchanged(heap[*json.RawMessage])
+
+// URL.String: proved free of index/slice/nil panics; the explicit panic(err)
+// after json.Marshal(u.Params.Filter) is the source's own choice (flag maypanic).
+//@ func URL.String
+//@ flag maypanic
+//@ props C03 C07
+//@ requires url: u != nil && u.Params != nil
+//@ modifies heap[string], new[string], new[[]string], new[uint8], new[any]
+//@ loop 0 invariant path: len(path) >= 1
+//@ loop 3 invariant param: len(param) >= 3
+//@ loop 4 invariant param: len(param#2) >= 3
+//@ loop 5 invariant params: len(params) >= 1
+
+//@ spec resSep(r Resource, fields map[string][]string, relData map[string][]string) = forall k string, t string :: dyn(R_get($rh, r, k)) == type[[]string] ==> (t in fields ==> sepSl(sl(R_get($rh, r, k), type[[]string]), fields[t])) && (t in relData ==> sepSl(sl(R_get($rh, r, k), type[[]string]), relData[t]))
+//@ spec incOK(d *Document) = forall k int :: 0 <= k && k < len(d.Included) ==> d.Included[k] != nil
+
+//@ func MarshalDocument$1
+//@ props C03
+//@ requires doc: doc != nil && *doc != nil && incOK(*doc)
+//@ requires idx: 0 <= i && i < len((*doc).Included) && 0 <= j && j < len((*doc).Included)
+
+//@ func MarshalDocument
+//@ flag absolute-quantifiers
+//@ flag maypanic
+//@ props C03 C04 C11
+//@ requires args: doc != nil && url != nil && url.Params != nil && incOK(doc)
+//@ requires sep-data: doc.Data != nil && dyn(doc.Data) != type[Identifier] && dyn(doc.Data) != type[Identifiers] ==> resSep(doc.Data, url.Params.Fields, doc.RelData) && colSep(doc.Data, url.Params.Fields, doc.RelData)
+//@ requires sep-included: forall k int :: 0 <= k && k < len(doc.Included) ==> resSep(doc.Included[k], url.Params.Fields, doc.RelData)
+//@ modifies all
+//@ assert after Slice#0 inc-ok: incOK(doc)
+//@ assert after Slice#0 inc-sep: forall k int :: 0 <= k && k < len(doc.Included) ==> resSep(doc.Included[k], url.Params.Fields, doc.RelData)
+//@ assert before Marshal#3 data-xor-errors: !("data" in plMap && "errors" in plMap)
+//@ assert before Marshal#3 included-needs-data: "included" in plMap ==> "data" in plMap
+//@ assert before Marshal#3 jsonapi-member: "jsonapi" in plMap && dyn(plMap["jsonapi"]) == type[map[string]string]
+//@ assert before Marshal#3 self-link: "links" in plMap && dyn(plMap["links"]) == type[map[string]Link] && "self" in links && links != nil
+//@ assert before Marshal#3 members: forall k string :: k in plMap ==> k == "data" || k == "errors" || k == "included" || k == "meta" || k == "links" || k == "jsonapi"
+
+//@ func MarshalResource+
+//@ assert before Marshal#2 self-link: dyn(mapPl["links"]) == type[map[string]string] && "self" in unbox(mapPl["links"], type[map[string]string]) && unbox(mapPl["links"], type[map[string]string])["self"] == selfLinkOf(prepath, R_type($rh, r).Name, str(R_get($rh, r, "id")))
+//@ assert before Marshal#2 id-type-strings: dyn(mapPl["id"]) == type[string] && dyn(mapPl["type"]) == type[string]
+//@ assert before Marshal#0 one-links: "links" in s && s["links"] != nil && "self" in s["links"] && "related" in s["links"] && s["links"]["self"] == selfLinkOf(prepath, R_type($rh, r).Name, str(R_get($rh, r, "id"))) + "/relationships/" + rel.FromName
+//@ assert before Marshal#1 many-links: "links" in s#1 && dyn(s#1["links"]) == type[map[string]string]
+
+// ---- Document.Include (C03): no type/ID pair twice across primary data and included ----
+//@ spec rkey(r Resource) = str(R_get($rh, r, "id")) + " " + R_type($rh, r).Name
+//@ spec dataHas(d *Document, key string) = (implements(d.Data, type[Resource]) && rkey(d.Data) == key) || (!implements(d.Data, type[Resource]) && implements(d.Data, type[Collection]) && (exists i int :: 0 <= i && i < C_len($rh, d.Data) && rkey(C_at($rh, d.Data, i)) == key))
+//@ spec docUnique(d *Document) = (forall k int :: 0 <= k && k < len(d.Included) ==> !dataHas(d, rkey(d.Included[k]))) && (forall k1 int, k2 int :: 0 <= k1 && k1 < k2 && k2 < len(d.Included) ==> rkey(d.Included[k1]) != rkey(d.Included[k2]))
+
+//@ func Document.Include
+//@ props C03
+//@ requires args: d != nil && res != nil && incOK(d)
+//@ requires unique: docUnique(d)
+//@ modifies obj[Document](d), spare[Resource](d.Included), new[Resource]
+//@ ensures still-ok: incOK(d)
+//@ ensures unique: docUnique(d)
+//@ ensures added-or-present: (exists k int :: 0 <= k && k < len(d.Included) && rkey(d.Included[k]) == rkey(res)) || dataHas(d, rkey(res))
+//@ loop 0 invariant frame: d.Data == pre(d.Data) && d.Included == pre(d.Included) && i >= 0
+//@ loop 0 invariant not-found: forall m int :: 0 <= m && m < i ==> rkey(C_at($rh, col, m)) != key
+//@ loop 1 invariant frame: d.Data == pre(d.Data) && d.Included == pre(d.Included)
+//@ loop 1 invariant not-found: forall m int :: 0 <= m && m <= $idx ==> rkey(d.Included[m]) != key
